@@ -15,13 +15,15 @@ def replay(q, args, kwargs):
     h = runner.load_module(H, 'h_c11_native')
     fn = q.meta['fn']
     if fn == 'header':
-        kind, name, ind, n1, n2, deco = args
-        ok = h.header(kind, name, ind, n1, n2, deco)
+        kind, name, ind, n1, n2, deco = args[:6]
+        cont = args[6] if len(args) > 6 else kwargs.get('cont', 0)
+        ok = h.header(kind, name, ind, n1, n2, deco, cont)
         if ok:
             return {'violated': False}
         kw = ['def', 'async def', 'class'][kind]
+        tail = name + ' ' * n2 + ('(object):' if kind == 2 else '(self):') + '\n'
         text = ('class outer:\n' if ind else '') + ('    ' * ind + '@deco\n' if deco else '') + \
-            '    ' * ind + kw + ' ' * n1 + name + ' ' * n2 + ('(object):' if kind == 2 else '(self):') + '\n' + \
+            ('    ' * ind + kw + ' \\\n' + ' ' * n1 + tail if cont else '    ' * ind + kw + ' ' * n1 + tail) + \
             '    ' * ind + '    pass\n'
         # confirm on the real text through the public path (real parser, unstubbed supp)
         import importlib
@@ -33,7 +35,7 @@ def replay(q, args, kwargs):
         lines = text.splitlines()
         bad = [(n.name, n.declared_at) for f, n in sc.all_names
                if n.name == name and lines[n.declared_at[0] - 1][n.declared_at[1]:n.declared_at[1] + len(name)] != name]
-        want_col = 4 * ind + len(kw) + n1
+        want_col = n1 if cont else 4 * ind + len(kw) + n1
         bad += [(n.name, n.declared_at) for f, n in sc.all_names if n.name == name and n.declared_at[1] != want_col]
         if not bad:
             return {'violated': False}
@@ -85,7 +87,7 @@ def run(tier, seed):
                      'extract_visitor.visit_Import/visit_ImportFrom/alias_loc', 'util.np', 'SourceScope.all_names',
                      'linter.lint (W01/W02 positions)', 'assistant.location']
     rep.bounds = ['(S) def / async def / class headers: name = any string of 1..3 letters of "acdefilmoprsty" (so that it can collide with '
-                  'keywords of the header) except Python keywords, 1..3 spaces before and 0..2 after the name, optional decorator, top level or nested',
+                  'keywords of the header) except Python keywords, 1..3 spaces before and 0..2 after the name, optional decorator, top level or nested, optional backslash continuation between keyword and name',
                   '(E) 9 import statement forms (plain, as, several aliases, dotted, x as y + y as x, parenthesised over two lines) x 3*5*5*3 '
                   'identifiers chosen to collide with "from", "import", "as" and with each other x spacing',
                   '(E) %d programs: every binding kind; text at the reported position is the identifier ("except" for except-as); '
